@@ -8,6 +8,7 @@ mod gen;
 mod ops;
 mod replay;
 mod scen_api;
+mod scen_aut;
 mod scen_build;
 mod scen_file;
 mod scen_lev;
@@ -70,6 +71,13 @@ fn record(args: &Args) {
             }
             let panics = s.panics;
             let (n, counts) = s.log.finish();
+            println!("{}", json!({"scenario": scen, "events": n, "counts": counts, "panics": panics}));
+        }
+        "c18" => {
+            let mut log = Log::create(&out);
+            scen_aut::c18(&mut log, seed, &tier);
+            let (n, counts) = log.finish();
+            let panics = counts.get("Panic").cloned().unwrap_or(0);
             println!("{}", json!({"scenario": scen, "events": n, "counts": counts, "panics": panics}));
         }
         "c17" => {
